@@ -33,7 +33,9 @@ ToSet(s) == {s[i] : i \in DOMAIN s}
 TInit == tid \in 1..NT /\ l = 1 /\ rmap = [r \in RIds |-> 0] /\ Init
 
 \* the projection logged with the event = the model state after the step
-Seen == UNION {ready'[k] \cup busy'[k] : k \in Keys} \cup {tc'[c] : c \in {d \in Clients : pc'[d] = "use"}}
+\* (closed() is compared for idle connections only: what happens to a connection while a client holds it is the
+\* client's business, the pool sees it again - closed or not, field cl - when it is given back)
+Seen == UNION {ready'[k] : k \in Keys}
 ProjOK ==
   LET e == Cur
       P == e.p IN
@@ -42,7 +44,7 @@ ProjOK ==
                      /\ waiters'[k] = P[k].w /\ ~P[k].wneg
                      /\ lock'[k].held = P[k].lk
   /\ lock'[0].held = e.gl
-  /\ {x \in Seen : cstat'[x] # "up"} = ToSet(e.dd)
+  /\ {x \in Seen : cstat'[x] # "up"} = ToSet(e.dd) \cap Seen
 
 InC == Cur.c \in Clients
 
